@@ -21,11 +21,11 @@ INFO = {
     'require': {
         'quick': {'counters': {'grids': 60, 'blocks_checked': 3000, 'horizontal_connections_checked': 2000,
                                'vertical_connections_checked': 2000, 'atmosphere_connections_checked': 100,
-                               'surface_cut_blocks': 100, 'columns_with_specified_centre': 10},
+                               'surface_cut_blocks': 100, 'columns_with_specified_centre': 10, 'atmosphere_type_switched_by_setter': 8},
                   'seen': {'atmosphere_type': 3}, 'nontrivial': 25},
         'thorough': {'counters': {'grids': 4000, 'blocks_checked': 400000, 'horizontal_connections_checked': 400000,
                                   'vertical_connections_checked': 250000, 'atmosphere_connections_checked': 12000,
-                                  'surface_cut_blocks': 12000, 'columns_with_specified_centre': 1200},
+                                  'surface_cut_blocks': 12000, 'columns_with_specified_centre': 1200, 'atmosphere_type_switched_by_setter': 500},
                      'seen': {'atmosphere_type': 3}, 'nontrivial': 2000},
     },
     'watchdog_s': {'quick': 1200, 'thorough': 5400},
@@ -299,6 +299,14 @@ def run_gen(ctx, spec):
             geo.translate(np.array(sh))
             desc['translate'] = sh
         decorate(ctx, geo, desc)
+        if rng.random() < 0.3:
+            # the atmosphere type changed on the finished geometry through the property setter (last step: nothing
+            # after it re-derives the name lists)
+            new = rng.choice([t for t in (0, 1, 2) if t != geo.atmosphere_type])
+            desc['atmosphere_type_switched'] = [geo.atmosphere_type, new]
+            ctx.see('atmosphere_type_switch', '%d->%d' % (geo.atmosphere_type, new))
+            geo.atmosphere_type = new
+            ctx.count('atmosphere_type_switched_by_setter')
         run_one(ctx, geo, desc, 'rectangular')
 
 
